@@ -450,6 +450,35 @@ def s_gate(P, E):
                 if not ok:
                     r.violate((b.nid, "ungated " + atom(c)),
                               "delivery to the subscriber is not guarded by is_subscribed()", body=b, line=c.line)
+    # .. and on that edge the delivery is unconditional: nothing else (the number of registered upstreams, a flag) decides
+    # whether a live subscriber gets the event
+    for name, want in (("sink_next", "obs_next"), ("sink_error", "obs_error"), ("sink_complete_force", "obs_complete")):
+        b = _sctl(P, name)
+        if b is None:
+            continue
+        dl = {c.bb for c in b.calls if _subscriber_call(b, c, (want,))}
+        gates_ = [g for g in _gate_true_blocks(b) if g["true"] != g["false"]]
+        if not dl or not gates_:
+            continue
+        # a return reached without delivering and without ever taking the not-subscribed edge of the gate
+        false_edges = {(g["switch"], g["false"]) for g in gates_ if g["false"] is not None}
+        seen_, work_ = {0}, [0]
+        leak = False
+        while work_:
+            x = work_.pop()
+            if x in b.returns:
+                leak = True
+                break
+            for y in b.succ.get(x, []):
+                if y in dl or (x, y) in false_edges or y in seen_:
+                    continue
+                seen_.add(y)
+                work_.append(y)
+        r.instance((b.nid, "unconditional " + want), True, None)
+        if leak:
+            r.violate((b.nid, "delivery depends on more than is_subscribed"),
+                      "%s can return without delivering although the subscriber was not found unsubscribed: the event is lost for a "
+                      "live subscription" % name, body=b)
     if n < 4:
         r.error("expected >= 4 subscriber deliveries in StreamController::sink_*, found %d" % n)
     # all deliveries to `subscriber` anywhere in impl StreamController must be in the sinks
